@@ -1,10 +1,10 @@
-\* DNS64 over the cache: AAAA NODATA entry + A entry composed by Hit64 (Lease64.tla); every C04 property holds
+\* thorough tier: the failure dimension over the full DNS64 configuration (three routes, SOA MINIMUM variants, two lease lengths)
 CONSTANTS
   Ticks = {1, 2, 5}
   Horizon = 100000
-  RawTTLs = {0, 7}
-  AuxSet <- AuxN
-  Deltas = {3}
+  RawTTLs = {0, 3, 7}
+  AuxSet <- AuxQ
+  Deltas = {1, 3}
   Floor = 5
   Cap = 86400
   EcsCap = 3
@@ -16,11 +16,11 @@ CONSTANTS
   V6Key = "d6"
   V4Key = "d4"
   NegRule = "rfc2308"
-  FailTTL = 0
+  FailTTL = 5
   FailRule = "terminal"
-  Routes = {"msg", "wire"}
+  Routes = {"msg", "msgw", "wire"}
   Reqs = {1}
-  MaxLeases = 1
+  MaxLeases = 2
   Zones <- ZonesA
   Parent <- ParentA
   DTTLs = {7}
@@ -32,6 +32,6 @@ CONSTANTS
   Res = {1}
 SPECIFICATION Spec64
 VIEW View64
-INVARIANTS TypeOKA
-PROPERTIES ServedLive TTLShown TTLMonotone ComposedMin LateWriteLoses
+INVARIANTS TypeOK64
+PROPERTIES ServedLive TTLShown TTLMonotone ComposedMin LateWriteLoses NeverOverCachedFailure NoLookupOverCachedFailure CachedFailureAnswers
 CHECK_DEADLOCK FALSE
